@@ -22,7 +22,7 @@ import ASV.Proofs.LocString
 import ASV.Proofs.LocExtend
 import ASV.Proofs.LocConnectRing
 import ASV.Proofs.LocOffsetArea
-import ASV.Proofs.LocConnectRingCover
+import ASV.Proofs.LocConnectRingPerm
 namespace ASV.C04
 open ASV
 
@@ -152,6 +152,59 @@ theorem connect_ring_covers_wf (ls : List Loc) (L : Int) (hne : ls ≠ []) (hL :
     exact connR_covers _ L hL (toR_ok L hL ls hin) (toR l) (List.mem_map.2 ⟨l, hl, rfl⟩) i
       ((toR_spec L hL l (hin l hl)).2.2.2 i hi)
   · exact connR_wf _ L hL (by simpa using hne) (toR_ok L hL ls hin)
+
+/-- … it is never longer than the line hull `max end − min start` of the inputs … -/
+theorem connect_ring_le_hull (ls : List Loc) (L : Int) (hne : ls ≠ []) (hL : 0 < L) (hin : ∀ l ∈ ls, RingIn L l) :
+    ∃ r, connect ls (some L) = .ok r ∧ r.len ≤ maxList (ls.map (·.end)) - minList (ls.map (·.start)) := by
+  refine ⟨_, connect_ring_closed ls L hne hL hin, ?_⟩
+  have h := connR_le_hull _ L hL (by simpa using hne) (toR_ok L hL ls hin)
+  have e1 : ((ls.map toR).map (RLoc.toLoc L)).map (·.start) = ls.map (·.start) := by
+    rw [List.map_map, List.map_map]
+    exact List.map_congr_left fun l hl => (toR_start_end L hL l (hin l hl)).1
+  have e2 : ((ls.map toR).map (RLoc.toLoc L)).map (·.end) = ls.map (·.end) := by
+    rw [List.map_map, List.map_map]
+    exact List.map_congr_left fun l hl => (toR_start_end L hL l (hin l hl)).2
+  rw [e1, e2] at h
+  exact h
+
+/-- … and it is the shortest covering arc whenever one shorter than half the record exists: the
+    result has no base outside ANY well-formed span `c` (one part, or two parts meeting at the
+    origin) that covers all inputs and is shorter than half the record, and is not longer than `c`.
+    (`RingInStrict` excludes only the location `[x, L)(−) + [0, y)(−)`, which in Biopython's part
+    order is an ordinary two-exon reverse-strand gene, not an origin-spanning one: it is reduced to
+    its line hull `[0, L)` — see `connect_ring_two_exon_reverse` below.) -/
+theorem connect_ring_shortest (ls : List Loc) (L : Int) (hne : ls ≠ []) (hL : 0 < L)
+    (hin : ∀ l ∈ ls, RingInStrict L l) (c : Loc) (hwf : areaWF L L c = true) (hlen : 2 * c.len < L)
+    (hcov : ∀ l ∈ ls, ∀ i, l.mem i = true → c.mem i = true) :
+    ∃ r, connect ls (some L) = .ok r ∧ r.len ≤ c.len ∧ ∀ i, r.mem i = true → c.mem i = true := by
+  have hin' : ∀ l ∈ ls, RingIn L l := fun l hl => (hin l hl).ringIn
+  refine ⟨_, connect_ring_closed ls L hne hL hin', ?_⟩
+  apply connR_shortest _ L hL (by simpa using hne) (toR_ok L hL ls hin') c hwf hlen
+  intro r hr i hi
+  obtain ⟨l, hl, rfl⟩ := List.mem_map.1 hr
+  exact hcov l hl i ((toR_mem_iff L hL l (hin l hl) i).1 hi)
+
+/-- the two-exon reverse-strand location `[90, 100)(−), [0, 10)(−)` (exons in descending order, so
+    not origin-spanning for `location_bridges_origin`) is connected to its line hull, the whole
+    record, although the 20-base span over the origin covers its bases -/
+theorem connect_ring_two_exon_reverse :
+    connect [areaTwo 90 10 100 .rev] (some 100) = .ok (.simple ⟨0, 100, .rev⟩) := by rfl
+
+/-- the result does not depend on the order of the arguments -/
+theorem connect_ring_perm (ls₁ ls₂ : List Loc) (hp : ls₁.Perm ls₂) (L : Int) (hne : ls₁ ≠ []) (hL : 0 < L)
+    (hin : ∀ l ∈ ls₁, RingIn L l) : connect ls₁ (some L) = connect ls₂ (some L) := by
+  have hne2 : ls₂ ≠ [] := fun e => hne (by subst e; exact List.perm_nil.1 hp)
+  have hin2 : ∀ l ∈ ls₂, RingIn L l := fun l hl => hin l (hp.mem_iff.2 hl)
+  rw [connect_ring_closed ls₁ L hne hL hin, connect_ring_closed ls₂ L hne2 hL hin2,
+    connR_perm (hp.map toR) L hL (toR_ok L hL ls₁ hin)]
+
+/-- connecting the result again returns it -/
+theorem connect_ring_idem (ls : List Loc) (L : Int) (hne : ls ≠ []) (hL : 0 < L) (hin : ∀ l ∈ ls, RingIn L l)
+    (r : Loc) (hr : connect ls (some L) = .ok r) : connect [r] (some L) = .ok r := by
+  rw [connect_ring_closed ls L hne hL hin] at hr
+  injection hr with hr; subst hr
+  have hrs : ls.map toR ≠ [] := by simpa using hne
+  exact connect_self _ L hL (connR_wf _ L hL hrs (toR_ok L hL ls hin)) (connR_shape _ L hL hrs (toR_ok L hL ls hin))
 
 /-! ### shifting by an offset (ring) -/
 
